@@ -91,6 +91,9 @@ class Interp:
                     return self.self_attrs[a]
                 if a in self.attr_lists:
                     return LIST(form(**{self.attr_lists[a]: 1}))
+                v = self.init_attr(a)
+                if v is not None:
+                    return v
                 return OTHER
             base = self.ev(e.value)
             if base.kind == "genret" and e.attr == "return_value":
@@ -135,6 +138,37 @@ class Interp:
         if isinstance(e, (ast.List, ast.Dict, ast.Set, ast.ListComp, ast.JoinedStr, ast.Subscript, ast.Starred, ast.Lambda, ast.GeneratorExp)):
             return OTHER
         return OTHER
+
+    def init_attr(self, attr: str) -> Optional[AV]:
+        """Value of a numeric attribute that the constructor computes once from the constraint lists
+        (`self._n = len(constraints)`, `self._n = len(self._hard) + ...`)."""
+        cls = self.fn.cls
+        if cls is None or self.depth > 4:
+            return None
+        init = cls.lookup("__init__")
+        if init is None:
+            return None
+        defs = [n for n in ast.walk(init.node) if isinstance(n, (ast.Assign, ast.AnnAssign)) and n.value is not None
+                and any(self_attr(t) == attr for t in (n.targets if isinstance(n, ast.Assign) else [n.target]))]
+        others = [m for c in cls.mro() for m in c.methods.values() if m is not init and any(
+            isinstance(n, (ast.Assign, ast.AugAssign)) and any(self_attr(t) == attr for t in (n.targets if isinstance(n, ast.Assign) else [n.target])) for n in ast.walk(m.node))]
+        if len(defs) != 1 or others:
+            return None
+        v = defs[0].value
+        if not any(isinstance(x, ast.Call) and isinstance(x.func, ast.Name) and x.func.id == "len" for x in ast.walk(v)):
+            return None
+        params = [p for p in init.params() if p != "self"]
+        env: dict[str, AV] = {}
+        for p_ in params:
+            if "constraint" in p_:
+                # all constraints handed to the constructor: h + r + s if the classification is a partition
+                st = CLASSIFICATION[0]
+                if st == "partition":
+                    env[p_] = LIST(form(h=1, r=1, s=1))
+                else:
+                    env[p_] = LIST(form(n_all=1))
+        sub = Interp(self.eng, init, env, self.pos | {"n_all"}, self.zero, self.attr_lists, [], self.depth + 1, self.self_attrs)
+        return sub.ev(v)
 
     def call(self, c: ast.Call) -> AV:
         f = c.func
@@ -461,6 +495,9 @@ class Interp:
         return UNKNOWN("returns differ")
 
 
+CLASSIFICATION: list = ["unknown", "", 0]
+
+
 def find_witness(expr: str, atoms: list[str], fixed: dict, bound: int = 12) -> Optional[dict]:
     """Concrete counts for which the abstract expression is not exactly 1.0 (replay file only)."""
     try:
@@ -493,6 +530,9 @@ def run(chk: Check, eng: Engine) -> None:
     chk.rule("R03-d", "a tree is recorded as reported only together with its yield; nobody else edits that record", floor=2)
     chk.not_decided.append("that success of arbitrary user expressions coincides with fitness()==1.0 beyond the accumulator shapes of R02-c/R07-c")
 
+    from .c02 import classification_status
+
+    CLASSIFICATION[:] = list(classification_status(eng))
     ev_cls = eng.cls(EVAL_MOD, "Evaluator")
     # list-valued attributes of the evaluator, read from the constructor
     init = eng.method(ev_cls, "__init__")
@@ -518,7 +558,7 @@ def run(chk: Check, eng: Engine) -> None:
         file = eng.relfile(fn)
         for pos, zero in cases:
             log: list = []
-            it = Interp(eng, fn, {"individual": OTHER}, pos, zero, attr_lists, log)
+            it = Interp(eng, fn, {"individual": OTHER}, (pos | {"n_all"}) if pos else pos, zero if pos else zero | {"n_all"}, attr_lists, log)
             it.run()
             case_s = ", ".join([f"{a}>0" for a in sorted(pos)] + [f"{a}=0" for a in sorted(zero)])
             if not it.yields:
@@ -534,6 +574,14 @@ def run(chk: Check, eng: Engine) -> None:
                 construct = f"{short(node)}  [operand {rec['operand']} = {v}]"
                 if v.kind == "unknown":
                     raise AnalysisError(f"{where.fq}:{node.lineno}: exactness of `{rec['operand']}` is UNKNOWN ({v.why}) in case {case_s}")
+                if v.kind == "rounded" and "n_all" in v.expr and CLASSIFICATION[0] == "lossy":
+                    chk.bad("R03-a", eng.relfile(where), node.lineno, where.fq, construct,
+                            "the fitness is normalised by the number of constraints handed to the constructor, but only the constraints that survive its "
+                            f"classification are evaluated ({CLASSIFICATION[1]}); with a dropped constraint the sum can never reach the threshold and a "
+                            "solvable spec is reported unsolved", keyparts="normaliser-counts-dropped-constraints")
+                    continue
+                if v.kind == "rounded" and "n_all" in v.expr:
+                    raise AnalysisError(f"{where.fq}:{node.lineno}: the normaliser is the number of constructor arguments and the classification could not be proven a partition")
                 if v.kind == "rounded":
                     wit = find_witness(v.expr, sorted(pos), {**{z: 0 for z in zero}, "k": 1}, 80 if len(pos) == 1 else 14)
                     chk.bad("R03-a", eng.relfile(where), node.lineno, where.fq, construct,
